@@ -33,6 +33,9 @@ def prepare(case):
         want = [v for v in order if v in ix]
         if want != ix:
             t = t.swizzleRanks([rid(v) for v in want])
+        for tn, v in case.get("ufmt", []):
+            if tn == f["t"] and v in ix:
+                t.setFormat(rid(v), "U")          # this rank is declared uncompressed: co-iteration sees every coordinate of its extent
         used[f["t"]] = t
         facs1.append({"t": f["t"], "ix": want})
     out = []
@@ -64,7 +67,7 @@ def run_nest(case, used, expr1, z, counters=None):
             prod = vals[0]
             for v in vals[1:]:
                 prod = prod * v
-            if prod != 0:
+            if prod != 0 or case.get("nofilter"):
                 zcur += prod
             return
         v = order[level]
